@@ -43,15 +43,15 @@ func c03DoPool(ctx *Ctx, p c03Pool, sets int) {
 	c03Judge(ctx, m)
 	c03PoolCorr(ctx, m)
 	if sets > 0 {
-		c03SetCases(ctx, m, sets == 2, ctx.N(1, 4))
-		c03VSCases(ctx, m, ctx.N(2, 6))
+		c03SetCases(ctx, m, sets == 2, ctx.N(1, 2))
+		c03VSCases(ctx, m, ctx.N(2, 4))
 	}
 }
 
 func runC03(ctx *Ctx) {
 	// 1. plain number pairs of every magnitude / precision class (text functions, rawNumberEqual)
 	o := ValOpts{}
-	for i := 0; i < ctx.N(1000, 40000); i++ {
+	for i := 0; i < ctx.N(1000, 20000); i++ {
 		a, b := genNumber(ctx.R, o), genNumber(ctx.R, o)
 		c03NumPair(ctx, a, b)
 		ctx.Eval("numpair "+numWire(a)+" "+numWire(b), a.Equals(b).True())
@@ -79,7 +79,7 @@ func runC03(ctx *Ctx) {
 	}
 	c03DoPool(ctx, c03Pool{"fixed/bools", []cty.Value{cty.True, cty.False, cty.NullVal(cty.Bool)}}, 2)
 	// 3. number pools (one number at several precisions + neighbours) and wrapped pools
-	for k := 0; k < ctx.N(24, 250); k++ {
+	for k := 0; k < ctx.N(24, 150); k++ {
 		base := c03NumPool(ctx)
 		if len(base) < 2 {
 			continue
@@ -94,7 +94,7 @@ func runC03(ctx *Ctx) {
 		}
 	}
 	// 4. generated values of every type with their re-precisioned twins
-	for k := 0; k < ctx.N(60, 1000); k++ {
+	for k := 0; k < ctx.N(60, 400); k++ {
 		if p, ok := c03GenPool(ctx, true); ok {
 			c03DoPool(ctx, p, k%2)
 		}
@@ -107,7 +107,7 @@ func runC03(ctx *Ctx) {
 		}
 	}
 	// 5. pairs of any two types, unknowns, marks, DynamicVal: symmetry
-	for i := 0; i < ctx.N(2000, 60000); i++ {
+	for i := 0; i < ctx.N(2000, 40000); i++ {
 		c03WildPair(ctx)
 	}
 	// 6. the generic cty/set half
